@@ -136,7 +136,17 @@ func WithTypeSettings(ts TypeSettings) Option {
 type options struct {
 	validation bool
 	ts         TypeSettings
+
+	// decodeDepth is the number of nested decode calls that are currently in progress (see maxDecodeDepth).
+	decodeDepth int
 }
+
+// maxDecodeDepth limits how deep the values of a recursive type can be nested in the data handed to Decode: every
+// level of nesting is a level of recursion of the decoder, and the nesting is chosen by the (untrusted) input - one
+// byte per level is enough. Without a limit about a megabyte of input exhausts the goroutine stack, which can not be
+// recovered from. The limit counts nested decode calls (a struct inside a slice inside a struct are three of them) and
+// is far above what real types need; it is kept low because every level wraps the error of the level below.
+const maxDecodeDepth = 1000
 
 func (o *options) toMode() serializer.DeSerializationMode {
 	mode := serializer.DeSeriModeNoValidation
